@@ -420,6 +420,7 @@ def _files_case(case, res):
     paths = list(MEM_PATHS)
   model = {}       # path -> ('json', value) | ('text', str) | ('jsonl', [values]) | ('lines', [str])
   overwritten = set()
+  unclosed = []
   try:
     for op in case.get('ops', []):
       if not isinstance(op, dict) or not isinstance(op.get('op'), str):
@@ -439,6 +440,16 @@ def _files_case(case, res):
         if name == 'save':
           v = values.build(op.get('v'), True)
           ensure_dir()
+          if n == 3 and p in model:
+            # a reader of the path that was read to the end and never closed precedes the overwrite
+            try:
+              rd = pg.io.open_sequence(p, 'r')
+              for _ in rd:
+                pass
+              unclosed.append(rd)
+              res.label('unclosed-reader-before-overwrite')
+            except Exception:   # pylint: disable=broad-except
+              pass
           pg.save(v, p)
           if p in model:
             overwritten.add(p)
@@ -467,8 +478,15 @@ def _files_case(case, res):
             model[p] = ('jsonl', model[p][1] + list(recs))
         elif name == 'jsonl_r':
           if p in model and model[p][0] == 'jsonl':
-            with pg.open_jsonl(p, 'r') as f:
+            if n % 2:
+              # a reader that is never closed explicitly (it stays at the end of the file)
+              f = pg.open_jsonl(p, 'r')
               got = [r for r in f]
+              unclosed.append(f)
+              res.label('unclosed-reader')
+            else:
+              with pg.open_jsonl(p, 'r') as f:
+                got = [r for r in f]
             want = [values.build(r, True) for r in model[p][1]]
             if len(got) != len(want) or any(not pg.eq(a, b) for a, b in zip(got, want)):
               return res.violate('records of %s: %r, written %r' % (short, got, want), law='records-differ', **sig)
